@@ -10,7 +10,7 @@ LayerClasses == {"QDense", "QConv1D", "QConv2D", "QDepthwiseConv2D", "QSeparable
                  "QAdaptiveActivation", "QBatchNormalization", "QAveragePooling2D", "QGlobalAveragePooling2D",
                  "QSimpleRNN", "QLSTM", "QGRU", "QBidirectional", "QConv2DBatchnorm", "QDepthwiseConv2DBatchnorm",
                  "QScaleShift"}
-Variants == {"fixed", "auto_axis", "auto_po2_bounds", "po2", "ternary_auto", "binary_axis"}
+Variants == {"fixed", "auto_axis", "auto_po2_bounds", "po2", "ternary_auto", "binary_axis", "explicit_none"}
 Routes == {"RT_Json", "RT_Clone", "RT_H5"}
 Init == m \in [cls : LayerClasses, variant : Variants] /\ hist = <<>> /\ orig = m
 RT(r) == Len(hist) < MaxDepth /\ m' = m /\ hist' = Append(hist, r) /\ orig' = orig
